@@ -54,7 +54,7 @@ fn two_different(c: &mut Choices) -> ((String, String), (String, String)) {
     }
 }
 
-pub const N_SNIPPETS: usize = 36;
+pub const N_SNIPPETS: usize = 37;
 
 pub fn snippet(k: usize, c: &mut Choices) -> Snippet {
     let mut decls = String::new();
@@ -377,6 +377,30 @@ pub fn snippet(k: usize, c: &mut Choices) -> Snippet {
                 }
             };
             ("value-where-the-never-type-is-required", s.to_string())
+        }
+        36 => {
+            // ordering and arithmetic need numbers: every operator of the class on two operands
+            // of one and the same non-numeric type
+            let vals = ["true", "'a'", "\"a\"", "()", "{ a: 1 }", "[1]", "Option.Some(1)", "AS64512", "1.1.1.1", "10.0.0.0 / 8"];
+            let v = vals[c.below(vals.len())];
+            let ordering = c.chance(128);
+            let op = if ordering {
+                ["<", "<=", ">", ">="][c.below(4)]
+            } else if v == "\"a\"" || v == "[1]" {
+                // `+` joins strings and lists
+                ["-", "*", "/", "%"][c.below(4)]
+            } else if v == "1.1.1.1" {
+                // address / length makes a prefix
+                ["-", "*", "+", "%"][c.below(4)]
+            } else {
+                ["+", "-", "*", "/", "%"][c.below(5)]
+            };
+            let s = if c.chance(128) {
+                format!("let zza = {v};\nlet zzb = {v};\nlet zz = zza {op} zzb;\n")
+            } else {
+                format!("let zz = ({v}) {op} ({v});\n")
+            };
+            (if ordering { "ordering-of-non-numbers" } else { "arithmetic-on-non-numbers" }, s)
         }
         _ => {
             let s = match c.below(3) {
